@@ -13,6 +13,7 @@ their picks from a seeded PRNG while the run is recorded; what is stored is the 
 pre-emption dict, so a replay is a pure function of (program, knobs, pre-emptions).
 """
 
+import os
 import random
 import sys
 import threading as _rt  # the real one
@@ -42,6 +43,8 @@ class Task(object):
         self.exc = None
         self.thread = None
         self.start_after = 0  # staggered start: decision index before which it is not runnable
+        self.parked = None  # race policy: (paths, parents) of the postponed event
+        self.parks = 0
 
 
 class Sched(object):
@@ -74,6 +77,8 @@ class Sched(object):
         self._change_points = set()
         self._bp_points = set()
         self.conditions = []
+        self.park_p = 0.1
+        self.race_hits = 0  # probe: a postponed event met a conflicting one
 
     # -- set-up ------------------------------------------------------------------------------
     def spawn(self, fn, start_after=0):
@@ -95,6 +100,8 @@ class Sched(object):
         elif self.policy == "bounded":
             k = max(self.est_len, 2)
             self._bp_points = set(self.rng.randrange(1, k) for _ in range(self.bound))
+        elif self.policy == "race":
+            self.park_p = self.rng.choice([0.04, 0.08, 0.15, 0.3])
 
     # -- main loop ---------------------------------------------------------------------------
     def run_all(self):
@@ -164,7 +171,7 @@ class Sched(object):
                     break
         return out
 
-    def _pick(self, cur, ev):
+    def _pick(self, cur, ev, res=None):
         """Choose the next task to run at this decision point."""
         runnable = self._runnable()
         if not runnable:
@@ -176,6 +183,7 @@ class Sched(object):
             return None
         default = cur if (cur is not None and cur in runnable) else runnable[0]
         if len(runnable) == 1:
+            runnable[0].parked = None
             return runnable[0]
         choice = default
         if self.preempt_in:
@@ -205,9 +213,58 @@ class Sched(object):
                     choice = self.rng.choice(others)
             elif self.rng.random() < 0.01:
                 choice = self.rng.choice(runnable)
+        elif self.policy == "race":
+            choice = self._pick_race(cur, ev, res, runnable, default)
         if choice is not default:
             self.preempt_out[d] = choice.tid
         return choice
+
+    # race-directed policy: a task about to execute a mutating step is postponed ("parked") with
+    # probability park_p; it stays parked until another task is about to execute a step on the same
+    # file / directory entry / shared list, and then a coin decides which of the two goes first (the
+    # postponed one may stay parked for the next conflicting step).  Finds windows of the form
+    # "B's step lands between two adjacent steps of A" with one lucky draw instead of two.
+    def _keys(self, ev, res):
+        if res is not None:
+            return (frozenset([res[0]]), frozenset()), bool(res[1])
+        if ev is None or ev.rel is None:
+            return None, False
+        paths = set([ev.rel])
+        if ev.kind == "rename" and isinstance(ev.extra, str):
+            paths.add(ev.extra)
+        parents = set(os.path.dirname(x) for x in paths)
+        return (frozenset(paths), frozenset(parents)), ev.kind in seam.MUTATING
+
+    @staticmethod
+    def _conflict(a, b):
+        return bool((a[0] & b[0]) or (a[0] & b[1]) or (a[1] & b[0]))
+
+    def _pick_race(self, cur, ev, res, runnable, default):
+        keys, mutating = self._keys(ev, res)
+        if cur is not None and cur.parked is not None:
+            cur.parked = None  # it was released: it executes its postponed step now
+            return default
+        avail = [t for t in runnable if t.parked is None]
+        if cur is not None and cur in runnable and keys is not None:
+            hits = [t for t in runnable if t.parked is not None and t is not cur and self._conflict(t.parked, keys)]
+            if hits:
+                self.race_hits += 1
+                if self.rng.random() < 0.5:
+                    return hits[0]  # the postponed step goes first (unparked when it runs)
+                return cur
+            if mutating and cur.parks < 3 and len(avail) > 1 and self.rng.random() < self.park_p:
+                cur.parked = keys
+                cur.parks += 1
+                return self.rng.choice([t for t in avail if t is not cur])
+        if default in avail:
+            if self.rng.random() < 0.01:
+                return self.rng.choice(avail)
+            return default
+        if avail:
+            return self.rng.choice(avail)
+        # everybody runnable is parked: release one
+        t = self.rng.choice(runnable)
+        return t
 
     def _switch_to(self, nxt, cur):
         self.current = nxt
@@ -227,11 +284,11 @@ class Sched(object):
     def _me(self):
         return self.current
 
-    def yield_point(self, ev=None):
+    def yield_point(self, ev=None, res=None):
         if self.aborting:
             return
         cur = self.current
-        nxt = self._pick(cur, ev)
+        nxt = self._pick(cur, ev, res)
         if nxt is None:
             self._fail_from_task(cur)
         if nxt is not cur:
@@ -398,21 +455,21 @@ class SimManagerList(object):
     def __init__(self):
         self._items = []
 
-    def _y(self):
+    def _y(self, mut=False):
         s = _sched()
         if s is not None and not s.aborting:
-            s.yield_point()
+            s.yield_point(None, (("L", id(self)), mut))
 
     def __contains__(self, x):
         self._y()
         return x in self._items
 
     def append(self, x):
-        self._y()
+        self._y(True)
         self._items.append(x)
 
     def remove(self, x):
-        self._y()
+        self._y(True)
         self._items.remove(x)
 
     def __len__(self):
@@ -427,21 +484,21 @@ class YieldList(list):
     atomic in CPython, but a thread switch between two of them is legal (threading mode gets the same
     granularity on its locked-identifier lists as the manager-list proxies of multiprocessing mode)."""
 
-    def _y(self):
+    def _y(self, mut=False):
         s = _sched()
         if s is not None and not s.aborting:
-            s.yield_point()
+            s.yield_point(None, (("L", id(self)), mut))
 
     def __contains__(self, x):
         self._y()
         return list.__contains__(self, x)
 
     def append(self, x):
-        self._y()
+        self._y(True)
         list.append(self, x)
 
     def remove(self, x):
-        self._y()
+        self._y(True)
         list.remove(self, x)
 
 
